@@ -88,7 +88,7 @@ def c17_r2(ctx, f):
                 ctx.abstain(rid, "non-constant Vec index %s in %s" % (expr_str(i, fn), fn.path), c.where())
                 continue
             facts = _vec_len_guard(fn, c.block, v)
-            vname = _field_name(v)
+            vname = _field_name(v, fn)
             ctx.check(rid, _implies_in_range(facts, k), "%s/%s[%d]" % (fn.path, vname, k), c.where(), fn.path,
                       "%s[%d]" % (expr_str(strip_refs(v), fn), k),
                       "the index is not protected by a length test of the vector being indexed (a test of another vector does not count): "
@@ -120,11 +120,11 @@ def _same_root(fn, a, b):
     return bool(roots(a) & roots(b))
 
 
-def _field_name(e):
+def _field_name(e, fn=None):
     for x in subexprs(e):
         if x[0] == "field" and len(x) == 4 and x[3]:
             return x[3]
-    return expr_str(e)
+    return expr_str(strip_refs(e), fn)
 
 
 def c17_r3(ctx, f):
